@@ -185,7 +185,7 @@ def build(R):
     translate(R)
     R.prove(FAM)
     if not R.quick:
-        R.coqchk(FAM, ["DvFib.PfxLogProofs", "DvFib.PfxLogLive", "DvFib.ConstFacts", "DvFib.DvFibProofs"])
+        R.coqchk(FAM, ["DvFib.PfxLogProofs", "DvFib.PfxLogLive", "DvFib.ConstFacts", "DvFib.DvFibProofs", "DvFib.DvDaemonProofs"])
     ok, runner, log = vlib.extract_build(FAM)
     if not ok:
         R.proof_problems.append("extraction/OCaml build of the DvFib model failed"); R.log(log[-1500:]); return None
